@@ -168,7 +168,7 @@ theorem handoffs_forward_preference :
        ("pkg/server/commands/listusers:fromListUsersRequest", "openfgav1.ListUsersRequest"),
        ("pkg/server/commands/reverseexpand:ReverseExpandQuery.execute", "ReverseExpandRequest"),
        ("pkg/server/commands/reverseexpand:ReverseExpandQuery.readTuplesAndExecute", "ReverseExpandRequest"),
-       ("pkg/server/commands/reverseexpand:ReverseExpandQuery.callCheckForCandidate", "graph.ResolveCheckRequest"),
+       ("pkg/server/commands/reverseexpand:ReverseExpandQuery.callCheckForCandidate", "graph.ResolveCheckRequestParams"),
        ("pkg/server:Server.Expand", "openfgav1.ExpandRequest"),
        ("pkg/server:Server.ListObjects", "openfgav1.ListObjectsRequest"),
        ("pkg/server:Server.Read", "openfgav1.ReadRequest")] := by decide
